@@ -23,20 +23,26 @@ def mutOf : String → Option Mutator
   | "createJobGroups" => some .createJobGroups | "commitUpdate" => some .commitUpdate | "closeBatch" => some .closeBatch
   | _ => none
 
-/-- `guard <route index> <hasSession> <active> <developer> <isAuth> <member> <owner> <batchIdOk>` → `<METHOD> <path> <outcome> <class>`;
+/-- `guard <route index> <hasSession> <active> <developer> <isAuth> <member> <owner> <batchIdOk> <serviceAccount>` → `<METHOD> <path> <outcome> <class>`;
 `mut <mutator> <isOwner> <tokenKnown> <emptyPayload> <namesake>` → `<ok|error> <changed|unchanged>`; `list <memberOrOwner> <namesake>` → `listed|hidden`; `count` → number of routes -/
 def handle (line : String) : String :=
   match words line with
   | ["count"] => toString Generated.BatchRoutes.routes.length
-  | ["guard", i, a, b, c, d, e, f, g] =>
-    match i.toNat?, bit a, bit b, bit c, bit d, bit e, bit f, bit g with
-    | some i, some a, some b, some c, some d, some e, some f, some g =>
+  | ["guard", i, a, b, c, d, e, f, g, h] =>
+    match i.toNat?, bit a, bit b, bit c, bit d, bit e, bit f, bit g, bit h with
+    | some i, some a, some b, some c, some d, some e, some f, some g, some h =>
       match Generated.BatchRoutes.routes[i]? with
       | some r =>
-        let cl : Caller := { hasSession := a, active := b, developer := c, isAuth := d, member := e, owner := f, batchIdOk := g }
+        let cl : Caller := { hasSession := a, active := b, developer := c, isAuth := d, serviceAccount := h, member := e, owner := f, batchIdOk := g }
         s!"{showMethod r.method} {r.path} {showOutcome (decision r.decorators r.isApi cl)} {showClass (required r.method r.segs)}"
       | none => "no-such-route"
-    | _, _, _, _, _, _, _, _ => "bad-op"
+    | _, _, _, _, _, _, _, _, _ => "bad-op"
+  | ["adm", a, b] =>
+    match bit a, bit b with
+    | some a, some b => match adminOnly a b with
+      | none => "admin-caller"
+      | some r => s!"{if r.ok then "ok" else "error"} {if r.changed then "changed" else "unchanged"}"
+    | _, _ => "bad-op"
   | ["mut", m, a, b, c, d] =>
     match mutOf m, bit a, bit b, bit c, bit d with
     | some m, some a, some b, some c, some d =>
